@@ -266,3 +266,6 @@ class _Sub:
 
     def require(self, cond, msg):
         return self._c.require(cond, msg)
+
+    def ob(self, rule, instance, ok, **kw):
+        return self._c.ob("R4", instance, ok, **kw)
